@@ -4,16 +4,33 @@
    the messages (sender, id) — the observed schedule.  The model run over that schedule must consume
    every message, produce exactly the observed sequence, one Write call per message (compared with
    the calls recorded by the harness stream when there is one), and the model's reader must decode
-   the concatenation of those calls to the same sequence.
+   the concatenation of those calls to the same sequence; the header the receiving side reports for
+   the k-th message equals, field by field, the header of the k-th message of the model run.
    A dispatch case is a C17Run.ocase (operation sequence on one endpoint). *)
 From QV Require Import Reader Message Endpoint C17Run.
 From Coq Require Import String.
 Local Open Scope N_scope.
 
+(* a message of a sender: the header's flags byte, then (type, service, object, action, id, payload):
+   every header field the reader accepts a free value for is free here *)
+Definition fomsg := (N * omsg)%type.
+Definition msg_of_f (p : fomsg) : msg :=
+  let m := msg_of (snd p) in
+  let h := m_header m in
+  {| m_header := {| h_magic := h_magic h; h_id := h_id h; h_size := h_size h; h_version := h_version h;
+                    h_type := h_type h; h_flags := fst p; h_service := h_service h; h_object := h_object h;
+                    h_action := h_action h |};
+     m_payload := m_payload m |}.
+
+(* the header fields as the receiving side reports them *)
+Definition hdr_fields (h : header) : list N :=
+  [h_magic h; h_id h; h_size h; h_version h; h_type h; h_flags h; h_service h; h_object h; h_action h].
+
 Record scase := {
-  sc_senders : list (list omsg);
+  sc_senders : list (list fomsg);
   sc_order : list N;              (* sender of the k-th message received *)
   sc_recv : list (N * N);         (* (sender, id) of the k-th message received *)
+  sc_rhdr : list (list N);        (* every field of the header of the k-th message received (hdr_fields) *)
   sc_has_calls : bool;
   sc_calls : list string          (* Write calls seen by the harness-owned stream *)
 }.
@@ -40,11 +57,12 @@ Fixpoint eqb_msgs (a b : list msg) : bool :=
   end.
 
 Definition scase_ok (c : scase) : bool :=
-  let ls := map (map msg_of) (sc_senders c) in
+  let ls := map (map msg_of_f) (sc_senders c) in
   match send_run (map N.to_nat (sc_order c)) ls {| w_calls := []; w_sched := [] |} [] with
   | Some (Ok (w', rest, tagged)) =>
       forallb (fun l => match l with [] => true | _ => false end) rest &&
       eqb_pairs (map (fun p => (N.of_nat (fst p), h_id (m_header (snd p)))) tagged) (sc_recv c) &&
+      all2 (fun p r => eqb_listN (hdr_fields (m_header (snd p))) r) tagged (sc_rhdr c) &&
       (if sc_has_calls c then eqb_calls (w_calls w') (sc_calls c) else true) &&
       match read_all (S (List.length tagged)) {| s_data := List.concat (w_calls w'); s_sched := [(7%nat, false); (1%nat, true); (28%nat, false)] |} with
       | Some (ms, EEOF, _) => eqb_msgs ms (map snd tagged)
